@@ -157,11 +157,27 @@ func checkC06(c *Ctx) {
 		if isEx {
 			call, _ = ex.Tuple.(*ssa.Call)
 		}
-		if call == nil || !an.CalleeIs(call.Common(), G, "newResponseWriter") {
+		if call == nil || !isNewRW(call.Common()) {
 			R.Fail("C06-counter", "(*conn).serveRequests: readRequest(id)", c.pos(m.readReq), "request number comes from a ResponseWriter that is not this iteration's newResponseWriter result")
 			arg = nil
 		} else {
-			arg = an.Strip(call.Common().Args[4])
+			arg = an.Strip(call.Common().Args[len(call.Common().Args)-1])
+			if inner := forwardedNewRW(call.Common()); inner != nil {
+				// the wrapper hands its own parameter on as the request number: find which argument of the call that is
+				arg = nil
+				if p, isP := an.Strip(inner.Common().Args[4]).(*ssa.Parameter); isP {
+					for i, fp := range p.Parent().Params {
+						if fp == p && i < len(call.Common().Args) {
+							arg = an.Strip(call.Common().Args[i])
+						}
+					}
+				}
+				if arg == nil {
+					R.Fail("C06-counter", "(*conn).serveRequests: readRequest(id)", c.pos(m.readReq), "the ResponseWriter wrapper does not pass its parameter on as the request number")
+				}
+			} else {
+				arg = an.Strip(call.Common().Args[4])
+			}
 			via = "through w.requestID"
 			for _, fs := range fieldStores([]*ssa.Function{newRW}, G, "ResponseWriter", "requestID") {
 				R.Check(an.Strip(fs.Store.Val) == ssa.Value(newRW.Params[4]), "C06-counter", "newResponseWriter: requestID <- requestID parameter", c.pos(fs.Store), "stored unchanged", "ResponseWriter.requestID is not the parameter")
@@ -373,10 +389,52 @@ func isThisIterationWriter(v ssa.Value, m *serverModel) bool {
 		return false
 	}
 	call, ok := ex.Tuple.(*ssa.Call)
-	if !ok || !an.CalleeIs(call.Common(), G, "newResponseWriter") {
+	if !ok || !isNewRW(call.Common()) {
 		return false
 	}
 	return loopHeadOf(call) == m.loopHead || call.Block() == m.loopHead
+}
+
+// isNewRW: a call of newResponseWriter, or of a forwarding wrapper around it.
+func isNewRW(cc *ssa.CallCommon) bool {
+	return an.CalleeIs(cc, G, "newResponseWriter") || forwardedNewRW(cc) != nil
+}
+
+// forwardedNewRW: the callee is a wrapper that does nothing but
+// `return newResponseWriter(...)` (one call, its results returned unchanged);
+// returns that inner call.
+func forwardedNewRW(cc *ssa.CallCommon) *ssa.Call {
+	f := an.StaticCallee(cc)
+	if f == nil || !an.InModule(f) || len(f.Blocks) != 1 {
+		return nil
+	}
+	var inner *ssa.Call
+	n := 0
+	for _, ci := range an.Calls(f) {
+		n++
+		if call, ok := ci.(*ssa.Call); ok && an.CalleeIs(ci.Common(), G, "newResponseWriter") {
+			inner = call
+		}
+	}
+	if n != 1 || inner == nil {
+		return nil
+	}
+	for _, in := range f.Blocks[0].Instrs {
+		if _, isStore := in.(*ssa.Store); isStore {
+			return nil
+		}
+	}
+	rets := an.Returns(f)
+	if len(rets) != 1 || len(rets[0].Results) != 2 {
+		return nil
+	}
+	for i, r := range rets[0].Results {
+		ex, ok := r.(*ssa.Extract)
+		if !ok || ex.Tuple != ssa.Value(inner) || ex.Index != i {
+			return nil
+		}
+	}
+	return inner
 }
 
 func isThisRequest(v ssa.Value, m *serverModel) bool {
@@ -435,20 +493,14 @@ func checkC10(c *Ctx) {
 	// the tested request is the one just read
 	{
 		v, _ := an.Not(g.If.Cond)
-		bo := v.(*ssa.BinOp)
-		var base ssa.Value
-		if b, ok := fieldLoad(bo.X, G, "Request", "routeOp"); ok {
-			base = b
-		} else if b, ok := fieldLoad(bo.Y, G, "Request", "routeOp"); ok {
-			base = b
-		}
+		base := atomBase(v, G, "Request", "routeOp")
 		R.Check(base != nil && isThisRequest(an.StripX(base), m), "C10-first", "(*conn).serveRequests: unbind test on the request just read", c.pos(g.If), "r is this iteration's readRequest result", "the unbind test does not look at the request just read")
 	}
 	// ---- C10-first: nothing is done with the request before the unbind test is decided (a case tried before it -
 	// a limit, a filter - that answers or skips the request would let an Unbind be answered and the loop go on)
 	{
 		wrResp := callPred(func(cc *ssa.CallCommon) bool { return an.CalleeIs(cc, G, "(*ResponseWriter).Write") })
-		early := or(isInstr(m.readReq), callPred(isMuxServe), func(in ssa.Instruction) bool { _, ok := in.(*ssa.Go); return ok }, callPred(func(cc *ssa.CallCommon) bool { return an.CalleeIs(cc, G, "newResponseWriter") }), wrResp)
+		early := or(isInstr(m.readReq), callPred(isMuxServe), func(in ssa.Instruction) bool { _, ok := in.(*ssa.Go); return ok }, callPred(isNewRW), wrResp)
 		if w := an.SearchCorr(an.After(m.readReq), early, isInstr(g.If), nil); w != nil {
 			R.Fail("C10-first", "(*conn).serveRequests: unbind test decided before the request is answered, dispatched or skipped", c.pos(w[len(w)-1]), "a request that was read can be answered, dispatched or skipped (next read) before the routeOp == unbind test is made: an Unbind taking that path does not end the connection: "+c.trail(w))
 		} else {
@@ -473,7 +525,7 @@ func checkC10(c *Ctx) {
 	// ---- C10-terminal
 	// (path-sensitive: a loop that ends through a flag set on the unbind branch - `for !unbound` - passes the loop
 	// head once more, to leave)
-	bad := or(isInstr(m.readReq), callPred(isMuxServe), func(in ssa.Instruction) bool { _, ok := in.(*ssa.Go); return ok }, callPred(func(cc *ssa.CallCommon) bool { return an.CalleeIs(cc, G, "newResponseWriter") }))
+	bad := or(isInstr(m.readReq), callPred(isMuxServe), func(in ssa.Instruction) bool { _, ok := in.(*ssa.Go); return ok }, callPred(isNewRW))
 	if w := an.SearchCorr(an.Point{B: ubSucc, I: 0}, bad, nil, nil); w != nil {
 		R.Fail("C10-terminal", "(*conn).serveRequests: after unbind nothing is served", c.pos(g.If), "after an Unbind the loop can continue to read / dispatch: "+c.trail(w))
 	} else {
@@ -652,19 +704,7 @@ func checkC13(c *Ctx) {
 	// the extendedName tested is that of the request just read and newRequest sets it from the message name
 	for _, g := range ifsOnEq(m.serve, isTLS) {
 		v, _ := an.Not(g.If.Cond)
-		var base ssa.Value
-		var operands []ssa.Value
-		switch x := v.(type) {
-		case *ssa.BinOp:
-			operands = []ssa.Value{x.X, x.Y}
-		case *ssa.Lookup:
-			operands = []ssa.Value{x.Index}
-		}
-		for _, o := range operands {
-			if b, ok := fieldLoad(o, G, "Request", "extendedName"); ok {
-				base = b
-			}
-		}
+		base := atomBase(v, G, "Request", "extendedName")
 		R.Check(base != nil && isThisRequest(an.StripX(base), m), "C13-inline", "(*conn).serveRequests: StartTLS test on the request just read", c.pos(g.If), "r is this iteration's request", "StartTLS test looks at another request")
 	}
 	// ---- C13-rawhandshake
@@ -955,6 +995,9 @@ func (c *Ctx) checkDeadlineDiscipline(rule string, m *serverModel) {
 			case f == m.serve && an.Search(an.After(s.ci), isInstr(m.readReq), nil) == nil:
 				R.OK(rule, key+" (end of read loop)", c.pos(s.ci), "no further request is read on this connection after it")
 				continue
+			case f != m.serve && c.endsReadLoop(f, m):
+				R.OK(rule, key+" (end of read loop, in a helper)", c.pos(s.ci), "the helper runs only as part of the read loop, which reads no further request after calling it")
+				continue
 			case c.isConnSetup(s.ci, m):
 				R.OK(rule, key+" (connection setup)", c.pos(s.ci), "armed before the first request is read, from the server's configured timeouts")
 				continue
@@ -1031,4 +1074,27 @@ func reachesSync(from, to *ssa.Function, seen map[*ssa.Function]bool) bool {
 		}
 	}
 	return false
+}
+
+// endsReadLoop: f runs only as a synchronous part of serveRequests, and after
+// every call that reaches it the read loop reads no further request.
+func (c *Ctx) endsReadLoop(f *ssa.Function, m *serverModel) bool {
+	if ok, _ := syncOnlyFrom(f, m.serve, c.shippedFuncs(G), 0); !ok {
+		return false
+	}
+	n := 0
+	for _, ci := range an.Calls(m.serve) {
+		if isGo(ci) {
+			continue
+		}
+		for _, u := range syncCalleesOf(ci) {
+			if u == f || reachesSync(u, f, map[*ssa.Function]bool{}) {
+				n++
+				if an.Search(an.After(ci), isInstr(m.readReq), nil) != nil {
+					return false
+				}
+			}
+		}
+	}
+	return n > 0
 }
